@@ -32,6 +32,8 @@ def to_internal(d):
 
 def probe_points(regs):
     pts = []
+    if len(regs) > 26:
+        regs = regs[:13] + regs[-13:]        # (after a burst of parts: the oldest and the newest regions)
     for d in regs:
         ex, ring = geom.probes(to_internal(d), ring=32, pull=1.0)
         pts += ex + ring
@@ -67,6 +69,21 @@ class Stepper(object):
             if op[1] == "mayShrinkRegionsWhilePrinting":
                 self.may_shrink = bool(op[2])
             return out
+        if op[0] == "burst":
+            _, n, twin, base = op
+            for k in range(n):
+                kk = k - 1 if (twin and k % 10 == 9) else k          # (every tenth repeats its predecessor's geometry)
+                h.api("addExcludeRegion", {"type": "RectangularRegion", "x1": 100.0 + 3 * (kk % 20), "y1": 100.0 + 3 * (kk // 20),
+                                           "x2": 102.0 + 3 * (kk % 20), "y2": 102.0 + 3 * (kk // 20), "id": "m%d_%d" % (base, k)})
+                # every part added so far is still excluded (centre probe; the full probe set runs at the next request)
+                if self.condition():
+                    for j in range(0, k + 1, 7):
+                        jj = j - 1 if (twin and j % 10 == 9) else j
+                        if not h.state.isPointExcluded(101.0 + 3 * (jj % 20), 101.0 + 3 * (jj // 20)):
+                            bad("c12_area_shrank", "after adding part %d of a burst the centre of part %d is no longer excluded" % (k, j))
+                            return out
+            self.classes.add("burst_of_%d" % n)
+            return out
         if op[0] == "event":
             h.event(op[1])
             if op[1] == "PRINT_STARTED":
@@ -75,6 +92,15 @@ class Stepper(object):
                 self.active = False
             return out
         cond = self.condition()
+        try:
+            return self._request(op, cond, out, bad)
+        except Exception as exc:  # pylint: disable=broad-except
+            # (serialising or testing a legal region must not raise; neither may a request)
+            bad("c12_exception", "%s: %s" % (type(exc).__name__, exc))
+            return out
+
+    def _request(self, op, cond, out, bad):  # pylint: disable=too-many-branches,too-many-locals
+        h = self.h
         before = h.regions()
         pts = probe_points(before)
         # a point counts as excluded before the request if the plugin says so or if it lies in one of the listed regions by an
@@ -273,6 +299,23 @@ def machine(tier, col):  # pylint: disable=unused-argument
                     else {"type": "CircularRegion", "cx": a, "cy": b, "r": 3.5, "id": "p%d" % n})
             self.do(["api", "addExcludeRegion", data])
             self.do(["event", "PRINT_STARTED"])
+
+        @rule(n=st.sampled_from([30, 105]), twin=st.booleans(), go=st.integers(0, 24))
+        def burst(self, n, twin, go):
+            """Many small regions (a print with many parts; rare), some of them twins with identical geometry and different ids."""
+            if go == 0:
+                self.do(["burst", n, twin, len(self.case["ops"])])
+
+        @rule(which=st.sampled_from(["x2", "y2", "r"]))
+        def add_unbounded(self, which):
+            """A half-plane / unbounded region (an infinite coordinate is a legal float for the region classes)."""
+            n = len(self.case["ops"])
+            if which == "r":
+                data = {"type": "CircularRegion", "cx": 300.0, "cy": 300.0, "r": 1e999, "id": "u%d" % n}
+            else:
+                data = {"type": "RectangularRegion", "x1": 200.0, "y1": 200.0, "x2": 210.0, "y2": 210.0, "id": "u%d" % n}
+                data[which] = 1e999
+            self.do(["api", "addExcludeRegion", data])
 
         @rule(pick=st.integers(0, 9))
         def delete(self, pick):
